@@ -1,5 +1,6 @@
 import GarbleVerif.Model.BitSem
 import GarbleVerif.Proofs.BitBridge
+import GarbleVerif.Proofs.Wrap
 /-! The bit-list operators of the compiler model on *encodings of values*: for operands that are
 the encodings of in-range integers, `Arith.binop` returns the encoding of the exact result, and
 its overflow condition holds exactly when the exact result is out of range. All widths. -/
@@ -402,6 +403,59 @@ theorem negChecked_enc (k : IntTy) (a : Int) (hs : k.signed = true) (ha : k.inRa
       intro h'; rw [(inRange_iff k (-a)).mpr h'] at hr; simp at hr
     simp only [IntTy.lo, IntTy.hi, hs, if_true] at hnr
     exact hsp.1.mpr (by omega)
+
+/-! ### `<=`, `>=` -/
+
+theorem le_bits (k : IntTy) (a b : Int) (ha : k.inRange a = true) (hb : k.inRange b = true) :
+    bOr (comparator (enc k a) k.signed (enc k b) k.signed).1 (eqBits (enc k a) (enc k b)) = decide (a ≤ b) ∧
+    bOr (comparator (enc k a) k.signed (enc k b) k.signed).2 (eqBits (enc k a) (enc k b)) = decide (a ≥ b) := by
+  rw [comparator_enc k a b ha hb, eqBits_enc k a b ha hb, bOr_eq, bOr_eq]
+  constructor
+  · by_cases h1 : a < b <;> by_cases h2 : a = b <;> simp [h1, h2] <;> omega
+  · by_cases h1 : b < a <;> by_cases h2 : a = b <;> simp [h1, h2] <;> omega
+
+/-! ### `as` -/
+
+theorem intToBits_congr (a b : Int) (w : Nat) (h : a % (2 : Int) ^ w = b % (2 : Int) ^ w) :
+    intToBits a w = intToBits b w := by
+  unfold intToBits; rw [h]
+
+/-- the bits of a cast are the encoding of the source value in the target width -/
+theorem cast_bits (x : List Bool) (s : Bool) (w : Nat) (V : Int) (hx : x ≠ []) (hv : valOf s x = V) :
+    Arith.cast x s w = intToBits V w := by
+  obtain ⟨a, rest, rfl⟩ : ∃ a rest, x = a :: rest := by
+    cases x with
+    | nil => exact absurd rfl hx
+    | cons a rest => exact ⟨a, rest, rfl⟩
+  have hl := cast_length (a :: rest) s w (by simp)
+  obtain ⟨q, hq⟩ := cast_spec a rest s w
+  apply eq_intToBits_of_emod _ w V hl
+  rw [← hv, hq, Int.add_mul_emod_self_right]
+
+theorem cast_int_int (k k' : IntTy) (n : Int) (hn : k.inRange n = true) :
+    Arith.cast (enc k n) k.signed k'.bits = enc k' (Src.wrapTo k' n) ∧ k'.inRange (Src.wrapTo k' n) = true := by
+  constructor
+  · rw [cast_bits (enc k n) k.signed k'.bits n (enc_ne_nil k n) (valOf_enc k n hn)]
+    unfold enc
+    exact intToBits_congr _ _ _ (Src.wrapTo_emod k' n).symm
+  · have := Src.wrapTo_range k' n
+    exact (inRange_iff k' _).mpr this
+
+theorem cast_bool_int (k' : IntTy) (b : Bool) :
+    Arith.cast [b] false k'.bits = enc k' (if b then 1 else 0) ∧ k'.inRange (if b then 1 else 0) = true := by
+  constructor
+  · have hv : valOf false [b] = (if b then 1 else 0) := by cases b <;> decide
+    rw [cast_bits [b] false k'.bits _ (by simp) hv]; rfl
+  · cases b <;> cases k' <;> decide
+
+theorem cast_int_bool (k : IntTy) (n : Int) (hn : k.inRange n = true) :
+    Arith.cast (enc k n) k.signed 1 = [n % 2 == 1] := by
+  rw [cast_bits (enc k n) k.signed 1 n (enc_ne_nil k n) (valOf_enc k n hn)]
+  have h0 := Int.emod_nonneg n (by decide : (2 : Int) ≠ 0)
+  have h1 := Int.emod_lt_of_pos n (by decide : (0 : Int) < 2)
+  have hcases : n % 2 = 0 ∨ n % 2 = 1 := by omega
+  simp only [intToBits, natToBits, Int.pow_one, Nat.pow_zero, Nat.div_one]
+  rcases hcases with h | h <;> rw [h] <;> rfl
 
 end Bit
 end GV
